@@ -132,7 +132,7 @@ theorem spellNode_abnormal {n : Tree} (hn : n.allNodes (nodeOK env) = true) (hab
     subst hl
     cases v <;> simp [Tree.value, Value.isNormal, Value.category] at hab <;> rfl
 
-theorem noAdjText_tail {k : Tree} {ks : List Tree} (h : noAdjText (k :: ks) = true) : noAdjText ks = true := by
+theorem rt_noAdjText_tail {k : Tree} {ks : List Tree} (h : noAdjText (k :: ks) = true) : noAdjText ks = true := by
   cases ks with
   | nil => rfl
   | cons k2 ks2 =>
@@ -148,7 +148,7 @@ theorem spellKids_noAdj (inScope : List (Nat × Nat)) (s : FStack) : ∀ (ks : L
   | [], _, _, _, _ => rfl
   | k :: ks, hn, hdoc, hord, hadj => by
     have ih := spellKids_noAdj inScope s ks (fun k' hk' => hn k' (by simp [hk']))
-      (fun k' hk' => hdoc k' (by simp [hk'])) (List.pairwise_cons.mp hord).2 (noAdjText_tail hadj)
+      (fun k' hk' => hdoc k' (by simp [hk'])) (List.pairwise_cons.mp hord).2 (rt_noAdjText_tail hadj)
     rw [spellNode.spellKids]
     by_cases hnorm : k.value.isNormal = true
     · obtain ⟨x, hx, hxc⟩ := spellNode_single (hn k (by simp)) hnorm (hdoc k (by simp)) inScope s
